@@ -143,6 +143,7 @@ func (s *Session) prog(mod string) (*Prog, error) {
 		s.fallbackContracts = append(s.fallbackContracts, rel)
 		return nil
 	})
+	p.Errors = append(p.Errors, p.checkRegistries()...)
 	if len(p.Errors) > 0 {
 		return p, fmt.Errorf("%s", strings.Join(p.Errors, "; "))
 	}
